@@ -272,7 +272,7 @@ def extra(ctx, cov):
 
 THEOREMS = ["Mpir.DivWord." + t for t in [
     "invert_limb_spec", "udiv_qrnnd_preinv_spec", "invert_pi1_spec", "udiv_qr_3by2_spec", "modlimb_invert_spec", "divrem_euclidean_qr_1_val",
-    "divrem_1_val_partial", "mod_1_val", "preinv_mod_1_val", "divexact_1_val", "divexact_by3c_val", "modexact_1c_odd_val",
+    "divrem_1_val", "divrem_euclidean_r_1_val", "rsh_divrem_hensel_qr_1_val", "mod_1_val", "preinv_mod_1_val", "divexact_1_val", "divexact_by3c_val", "modexact_1c_odd_val",
 ]]
 
 if __name__ == "__main__":
